@@ -237,18 +237,24 @@ ARGV_TEMPLATES = [
     dict(name="stdin-window-0.2", argv=["-a", "0.2", "-n", "0.2", "-m", "0.6", "-s", "0.2"], stdin=True),
     dict(name="file-window-0.2", argv=["-a", "0.2", "-n", "0.2", "-m", "0.6", "-s", "0.2"]),
     dict(name="min-dur", argv=["-n", "0.2", "-s", "0"]),
+    dict(name="fractional-window", argv=["-a", "0.25", "-n", "0.25", "-m", "0.75", "-s", "0.25"]),
+    dict(name="fractional-window-stdin", argv=["-a", "0.25", "-n", "0.25", "-m", "0.75", "-s", "0"], stdin=True),
+    dict(name="wav-stereo-u1", argv=["-u", "1"], input="in2.wav", wav_channels=2),
+    dict(name="wav-3ch-u-1", argv=["-u", "-1", "-L"], input="in3.wav", wav_channels=3),
 ]
 E2E_K = {"quick": 5, "thorough": 7}
 LOUD, QUIET = b"\x10\x27", b"\x01\x00"     # 10000 / 1 as int16: 80 dB / 0 dB
 
 
 def e2e_audio(bits, ch=1):
-    if ch == 2:      # channel 0 always quiet, channel 1 carries the activity
-        return b"".join(QUIET + (LOUD if b else QUIET) for b in bits)
+    if ch >= 2:      # the last channel carries the activity, the others are always quiet
+        return b"".join(QUIET * (ch - 1) + (LOUD if b else QUIET) for b in bits)
     return b"".join(LOUD if b else QUIET for b in bits)
 
 
 def tpl_channels(tpl):
+    if tpl.get("wav_channels"):
+        return tpl["wav_channels"]
     a = tpl["argv"]
     return int(a[a.index("-c") + 1]) if "-c" in a else 1
 
@@ -274,13 +280,20 @@ def e2e_expected(core, tpl, data, util):
     def opt(o, default, conv=float):
         return conv(argv[argv.index(o) + 1]) if o in argv else default
     kw = dict(min_dur=opt("-n", 0.1), max_dur=opt("-m", 0.3), max_silence=opt("-s", 0.1), drop_trailing_silence="-d" in argv, strict_min_dur="-R" in argv,
-              sr=10, sw=2, ch=opt("-c", 1, int), analysis_window=opt("-a", 0.1), energy_threshold=opt("-e", 50.0))
+              sr=10, sw=2, ch=tpl_channels(tpl), analysis_window=opt("-a", 0.1), energy_threshold=opt("-e", 50.0))
     if "-u" in argv:
         u = argv[argv.index("-u") + 1]
         kw["use_channel"] = int(u) if u.lstrip("-").isdigit() else u
     if "-M" in argv:
         kw["max_read"] = float(argv[argv.index("-M") + 1])
-    regs = list(core.split(data, **kw))
+    aw_ = kw["analysis_window"]
+    if int(aw_ * 10) * 10 != round(aw_ * 100):
+        # a window that is not a whole number of samples: the program hands split() an AudioReader, for which durations count in
+        # the reader's effective window (C06); the corresponding API call is the one with such a reader
+        rk = {k_: kw.pop(k_) for k_ in ("sr", "sw", "ch", "analysis_window", "max_read") if k_ in kw}
+        regs = list(core.split(util.AudioReader(data, block_dur=rk.pop("analysis_window"), **rk), **kw))
+    else:
+        regs = list(core.split(data, **kw))
     pf = "{id} {start} {end}"
     if "--printf" in argv:
         pf = argv[argv.index("--printf") + 1].replace("\\n", "\n").replace("\\t", "\t").replace("\\r", "\r")
@@ -305,7 +318,7 @@ def e2e_harness(L, tpl, K):
         s = S.Sched(e, max_timeouts=10 ** 6, max_preempt=10 ** 6)
         s.script = []                       # fair deterministic policy: first runnable thread; sleep yields to the workers
         fs = iostub.FS()
-        fs.files[tpl.get("input", "in.raw")] = iostub.RawEntry(data)
+        fs.files[tpl.get("input", "in.raw")] = iostub.WavEntry(data, 10, 2, tpl["wav_channels"]) if tpl.get("wav_channels") else iostub.RawEntry(data)
         iostub.install(L, fs, stdin_data=data)
         out_lines, err_lines = [], []
 
@@ -335,7 +348,7 @@ def e2e_harness(L, tpl, K):
 def fs_files(fs):
     out = {}
     for k, ent in fs.files.items():
-        if k in ("in.raw", "<stdin>", "capture.pcm", "capture"):
+        if k in ("in.raw", "<stdin>", "capture.pcm", "capture", "in2.wav", "in3.wav"):
             continue
         try:
             out[k] = (bytes(ent.data), (getattr(ent, "rate", None), getattr(ent, "width", None), getattr(ent, "channels", None)), getattr(ent, "finalised", True))
@@ -483,7 +496,15 @@ def replay_e2e(c):
     tmp = tempfile.mkdtemp(prefix="sxv-c15-")
     cwd = os.getcwd()
     os.chdir(tmp)
-    open(tpl.get("input", "in.raw"), "wb").write(data)
+    if tpl.get("wav_channels"):
+        import wave as _wave
+        with _wave.open(tpl["input"], "wb") as wf_:
+            wf_.setframerate(10)
+            wf_.setsampwidth(2)
+            wf_.setnchannels(tpl["wav_channels"])
+            wf_.writeframes(data)
+    else:
+        open(tpl.get("input", "in.raw"), "wb").write(data)
     s = S.Sched(None, max_timeouts=10 ** 6, max_preempt=10 ** 6)
     s.script = []
     out_lines, err_lines = [], []
@@ -511,7 +532,7 @@ def replay_e2e(c):
         import wave as _wave
         files = {}
         for nm in os.listdir(tmp):
-            if nm in ("in.raw", "capture.pcm", "capture"):
+            if nm in ("in.raw", "capture.pcm", "capture", "in2.wav", "in3.wav"):
                 continue
             try:
                 with _wave.open(nm, "rb") as w:
